@@ -155,6 +155,8 @@ func specResult(root *model.Node, op string) string {
 		return strings.Join(expectedCreated(f, []string{".gz"}, "T"), "\n")
 	case "verify":
 		return "nil"
+	case "unrelated.bigdry":
+		return "the large report is the model's"
 	}
 	return "?"
 }
@@ -525,6 +527,21 @@ func (t *liveTree) runOp(op, tmp string) string {
 			return "ERR:" + errStr(o.Err) + fmt.Sprint(o.Panic)
 		}
 		return sgrSeq.ReplaceAllString(string(w.Bytes()), "")
+	case "unrelated.bigdry":
+		// a dry run of ANOTHER, large tree (its report is longer than 64 KiB) somewhere in the
+		// history: whatever the library keeps from it must not reach a later report
+		big, want := c13BigTree()
+		var o Outcome
+		rep := captureColorOutput(func() {
+			o = Guard(func() error { return gtree.MkdirFromRoot(big, gtree.WithDryRun(), gtree.WithFileExtensions(c13Ext)) })
+		})
+		if o.Panic != nil || o.Err != nil {
+			return "ERR:" + errStr(o.Err) + fmt.Sprint(o.Panic)
+		}
+		if got := sgrSeq.ReplaceAllString(string(rep), ""); got != want {
+			return "LARGE REPORT DIFFERS: " + strconv.Itoa(len(got)) + " bytes, want " + strconv.Itoa(len(want)) + "; begins " + strconv.Quote(trunc(got, 80))
+		}
+		return "the large report is the model's"
 	case "dryrun":
 		var o Outcome
 		rep := captureColorOutput(func() {
@@ -549,6 +566,9 @@ func (t *liveTree) runOp(op, tmp string) string {
 		o := Guard(func() error {
 			return gtree.MkdirFromRoot(t.root, gtree.WithTargetDir(j.Target), gtree.WithFileExtensions(c13Ext))
 		})
+		if open := mon.OpenUnder(j.Root); len(open) > 0 {
+			return "DESCRIPTORS STILL OPEN AFTER THE CALL: " + strings.Join(open, ", ")
+		}
 		if treeHasInvalid(t.shape) {
 			return rejectedAs(o, len(mon.Diff(before, j.Snap())) != 0, 0)
 		}
@@ -614,6 +634,7 @@ func runC13(c *Ctx) bool {
 		{[]string{"dryfail", "dryrun.json"}, L - 2}, // a failed dry-run report, then dry-run reports
 		{[]string{"iter.stored", "text.b3"}, L - 2},   // one sequence value ranged over again and again while the tree grows
 		{[]string{"walk.reentrant", "text"}, L - 3},
+		{[]string{"unrelated.bigdry", "dryrun"}, L - 4}, // a report beyond 64 KiB earlier in the history
 	}
 	for _, ps := range passes {
 		var hist []string
@@ -704,7 +725,7 @@ func runC13(c *Ctx) bool {
 	return runC13Concurrent(c)
 }
 
-var c13Ops = []string{"text", "text.b3", "text.b6", "walk", "iter", "json", "walk.massive", "text.massive", "json.massive", "walkfail", "iterbreak", "textfail", "jsonfail", "dryrun", "mkdir", "verify", "mkdirfail", "verifyfail", "dryrun.json", "dryrun.massive.x5", "dryfail", "iter.stored", "walk.reentrant"}
+var c13Ops = []string{"text", "text.b3", "text.b6", "walk", "iter", "json", "walk.massive", "text.massive", "json.massive", "walkfail", "iterbreak", "textfail", "jsonfail", "dryrun", "mkdir", "verify", "mkdirfail", "verifyfail", "dryrun.json", "dryrun.massive.x5", "dryfail", "iter.stored", "walk.reentrant", "unrelated.bigdry"}
 var c13Names = []string{"a", "b", "c", "A", "B", "x.gz", "d e", "日本", "x/y", "p/q"} // the last two are not path elements: mkdir, verify and dry run must reject the tree, whatever happened to it before
 
 const c13Rejected = "REJECTED: invalid name, nothing created or reported"
@@ -1140,3 +1161,24 @@ func evalC13Concurrent(c *Ctx, cs *Case) {
 // c13Ext is ONE extension slice (with a repeated entry) handed to every call of this check, as a
 // caller who prepared its options once would do; the specification reads {".gz"}.
 var c13Ext = []string{".gz", ".md", ".gz"}
+
+
+var (
+	c13BigOnce sync.Once
+	c13BigNode *gtree.Node
+	c13BigWant string
+)
+
+// c13BigTree: one root with 3500 children (a dry-run report of about 90 KiB) and the report the
+// model expects for it.
+func c13BigTree() (*gtree.Node, string) {
+	c13BigOnce.Do(func() {
+		m := &model.Node{Name: "big-unrelated-tree"}
+		for i := 0; i < 3500; i++ {
+			m.Kids = append(m.Kids, &model.Node{Name: "entry-" + strconv.Itoa(i) + "-padding"})
+		}
+		c13BigNode = BuildRoot(m)
+		c13BigWant = model.DryRunReport(model.Forest{m}, model.DefaultBranch, c13Ext)
+	})
+	return c13BigNode, c13BigWant
+}
